@@ -32,6 +32,8 @@ pub enum Call {
     Dec,
     /// ProgressBar::reset() (position part only): must not hand out a fresh burst
     Reset,
+    /// set_length with the value the bar already has: still an ordinary redraw request
+    SetSameLength,
 }
 
 #[derive(Debug, Clone, Serialize, Deserialize)]
@@ -125,6 +127,7 @@ fn run_rate(c: &RateCase) -> CaseResult {
                     b.len += 1;
                     b.pb.set_length(b.len);
                 }
+                Call::SetSameLength => b.pb.set_length(b.len),
                 Call::Inc => {
                     b.pos += 1;
                     b.pb.inc(1);
@@ -223,7 +226,7 @@ fn gap_strategy() -> BoxedStrategy<Gap> {
 
 fn rate_strategy(tier: Tier) -> BoxedStrategy<RateCase> {
     let n = tier.pick(400, 2000);
-    let call = prop_oneof![4 => Just(Call::Tick), 2 => Just(Call::SetMessage), 1 => Just(Call::SetLength), 3 => Just(Call::Inc), 1 => Just(Call::SetPosition), 1 => Just(Call::Dec)];
+    let call = prop_oneof![4 => Just(Call::Tick), 2 => Just(Call::SetMessage), 1 => Just(Call::SetLength), 1 => Just(Call::SetSameLength), 3 => Just(Call::Inc), 1 => Just(Call::SetPosition), 1 => Just(Call::Dec)];
     let rate = || prop_oneof![2 => prop_oneof![Just(1u8), Just(3), Just(7), Just(20), Just(30), Just(60), Just(255)], 1 => 1u8..=255];
     let free = (rate(), 0u8..3, proptest::collection::vec((gap_strategy(), call.clone()), 30..n)).prop_map(|(rate, mode, calls)| RateCase { rate, mode, calls });
     // the burst is used up at the creation instant, then requests arrive exactly at, one ns before and
@@ -234,7 +237,7 @@ fn rate_strategy(tier: Tier) -> BoxedStrategy<RateCase> {
         rate(),
         0u8..3,
         20usize..24,
-        proptest::collection::vec((edge, prop_oneof![Just(Call::Tick), Just(Call::SetMessage), Just(Call::SetLength)]), 5..60),
+        proptest::collection::vec((edge, prop_oneof![Just(Call::Tick), Just(Call::SetMessage), Just(Call::SetLength), Just(Call::SetSameLength)]), 5..60),
         proptest::collection::vec((gap_strategy(), call), 0..60),
     )
         .prop_map(|(rate, mode, burst, edges, tail)| {
@@ -244,6 +247,31 @@ fn rate_strategy(tier: Tier) -> BoxedStrategy<RateCase> {
             RateCase { rate, mode, calls }
         });
     prop_oneof![3 => free, 1 => boundary].boxed()
+}
+
+fn decode_rate(u: &mut FuzzInput) -> RateCase {
+    let rate = if u.n(2) == 0 { 1 + u.n(254) as u8 } else { [1u8, 3, 7, 20, 30, 60, 255][u.n(6)] };
+    let mode = u.n(2) as u8;
+    let mut calls = vec![];
+    // optionally use up the burst first
+    if u.n(2) == 0 {
+        calls.extend((0..20 + u.n(3)).map(|_| (Gap::Zero, Call::Tick)));
+    }
+    while !u.empty() && calls.len() < 400 {
+        let gap = match u.n(15) {
+            0..=5 => Gap::Zero,
+            6 => Gap::Ns(u.u32()),
+            7 | 8 => Gap::SubMs(u.u32()),
+            9..=11 => Gap::KInterval(u.n(3) as u8, u.n(2) as i8 - 1),
+            12 => Gap::HalfInterval,
+            13 => Gap::Millis(u.n(40) as u16),
+            14 => Gap::Secs(u.u16()),
+            _ => Gap::Hours(u.u8()),
+        };
+        let call = [Call::Tick, Call::Tick, Call::SetMessage, Call::SetLength, Call::SetSameLength, Call::Inc, Call::Inc, Call::SetPosition, Call::Dec][u.n(8)];
+        calls.push((gap, call));
+    }
+    RateCase { rate, mode, calls }
 }
 
 // position bucket: burst 10, one token per millisecond
@@ -324,6 +352,180 @@ fn run_pos(c: &PosCase) -> CaseResult {
     Ok(v)
 }
 
+// ------------------------------------------------------------------------------------------
+// real clock, real threads: requests that come from the steady ticker, and requests that meet a busy bar
+
+/// records the real instant of every flush and what the frame showed; a flush may take a while
+#[derive(Clone)]
+struct TimedTerm {
+    flushes: std::sync::Arc<std::sync::Mutex<Vec<(std::time::Instant, String)>>>,
+    cur: std::sync::Arc<std::sync::Mutex<String>>,
+    slow: std::time::Duration,
+}
+
+impl indicatif::TermLike for TimedTerm {
+    fn width(&self) -> u16 {
+        80
+    }
+    fn move_cursor_up(&self, _: usize) -> std::io::Result<()> {
+        Ok(())
+    }
+    fn move_cursor_down(&self, _: usize) -> std::io::Result<()> {
+        Ok(())
+    }
+    fn move_cursor_right(&self, _: usize) -> std::io::Result<()> {
+        Ok(())
+    }
+    fn move_cursor_left(&self, _: usize) -> std::io::Result<()> {
+        Ok(())
+    }
+    fn write_line(&self, _: &str) -> std::io::Result<()> {
+        Ok(())
+    }
+    fn write_str(&self, s: &str) -> std::io::Result<()> {
+        if s.starts_with('P') {
+            *self.cur.lock().unwrap() = s.to_string();
+        }
+        Ok(())
+    }
+    fn clear_line(&self) -> std::io::Result<()> {
+        Ok(())
+    }
+    fn flush(&self) -> std::io::Result<()> {
+        if !self.slow.is_zero() {
+            std::thread::sleep(self.slow);
+        }
+        let line = self.cur.lock().unwrap().clone();
+        self.flushes.lock().unwrap().push((std::time::Instant::now(), line));
+        Ok(())
+    }
+}
+
+impl std::fmt::Debug for TimedTerm {
+    fn fmt(&self, f: &mut std::fmt::Formatter<'_>) -> std::fmt::Result {
+        f.write_str("TimedTerm")
+    }
+}
+
+#[derive(Debug, Clone, Serialize, Deserialize)]
+pub struct TickerCase {
+    /// refresh rate of the target
+    rate: u8,
+    tick_ms: u8,
+    /// the bar is suspended for this long (the ticker cannot draw meanwhile)
+    stall_ms: u16,
+    in_multi: bool,
+}
+
+/// The frame-rate bound also holds for the requests the steady ticker issues, in particular right after it
+/// was held up for a while.
+fn run_ticker(c: &TickerCase) -> CaseResult {
+    use std::time::Duration;
+    let rate = c.rate.clamp(20, 200) as f64;
+    let term = TimedTerm { flushes: Default::default(), cur: Default::default(), slow: Duration::ZERO };
+    let target = ProgressDrawTarget::term_like_with_hz(Box::new(term.clone()), rate as u8);
+    let (mp, pb) = if c.in_multi {
+        let mp = MultiProgress::with_draw_target(target);
+        let pb = mp.add(ProgressBar::new(100));
+        (Some(mp), pb)
+    } else {
+        (None, ProgressBar::with_draw_target(Some(100), target))
+    };
+    pb.set_style(ProgressStyle::with_template("P{pos} {spinner}").unwrap());
+    pb.enable_steady_tick(Duration::from_millis(1 + c.tick_ms as u64 % 4));
+    std::thread::sleep(Duration::from_millis(120));
+    let stall = Duration::from_millis(200 + c.stall_ms as u64 % 500);
+    pb.suspend(|| std::thread::sleep(stall));
+    std::thread::sleep(Duration::from_millis(150));
+    pb.disable_steady_tick();
+    let frames: Vec<std::time::Instant> = term.flushes.lock().unwrap().iter().map(|f| f.0).collect();
+    drop(pb);
+    drop(mp);
+    // every window [t_i, t_j]: (j - i + 1) <= 20 + R*(t_j - t_i) + 1 (+ slack for flushes delayed by the scheduler;
+    // suspend paints 2 forced frames that do not count)
+    let slack = 12.0;
+    let t0 = frames.first().copied();
+    let mut min_g = f64::INFINITY;
+    for (k, t) in frames.iter().enumerate() {
+        let g = k as f64 - rate * t.duration_since(t0.unwrap()).as_secs_f64();
+        min_g = min_g.min(g);
+        ensure!(
+            g - min_g <= 20.0 + 1.0 + slack,
+            "rate_bound_ticker",
+            "steady tick every {} ms on a {rate} Hz target, suspended for {stall:?}: {} frames more than 20 + R*T + 1 in a window ending at frame #{k} ({} frames in total, the last ones {:?} after the first)",
+            1 + c.tick_ms % 4,
+            (g - min_g - 21.0) as i64,
+            frames.len(),
+            frames[k.saturating_sub(5)..=k].iter().map(|x| x.duration_since(t0.unwrap())).collect::<Vec<_>>()
+        );
+    }
+    ensure!(frames.len() >= 10, "harness", "the steady ticker painted only {} frames", frames.len());
+    let mut v = Verdict::default();
+    v.nontrivial = true;
+    v.label("ticker_held_up_then_released");
+    v.label_if(c.in_multi, "multi_progress_target");
+    Ok(v)
+}
+
+#[derive(Debug, Clone, Serialize, Deserialize)]
+pub struct BusyCase {
+    incs: u8,
+    flush_ms: u8,
+    gap_ms: u8,
+    via: u8,
+}
+
+/// A position update that arrives while another thread is painting is still a redraw request: once
+/// both threads are done the last frame shows the final position (burst of 10 never used up here).
+fn run_busy(c: &BusyCase) -> CaseResult {
+    use std::time::Duration;
+    let term = TimedTerm { flushes: Default::default(), cur: Default::default(), slow: Duration::from_millis(5 + c.flush_ms as u64 % 20) };
+    let pb = ProgressBar::with_draw_target(Some(1000), ProgressDrawTarget::term_like_with_hz(Box::new(term.clone()), 255));
+    pb.set_style(ProgressStyle::with_template("P{pos} {msg}").unwrap());
+    pb.tick();
+    let n = 1 + c.incs as u64 % 5;
+    std::thread::scope(|s| {
+        let a = pb.clone();
+        s.spawn(move || {
+            for k in 0..3 {
+                a.set_message(format!("m{k}"));
+            }
+        });
+        let b = pb.clone();
+        let (gap, via) = (Duration::from_millis(c.gap_ms as u64 % 12), c.via);
+        s.spawn(move || {
+            std::thread::sleep(Duration::from_millis(2));
+            for k in 1..=n {
+                match via % 3 {
+                    0 => b.inc(1),
+                    1 => b.set_position(k),
+                    _ => {
+                        b.inc(2);
+                        b.dec(1)
+                    }
+                }
+                std::thread::sleep(gap);
+            }
+        });
+    });
+    // (more than 4 ms after the last frame: the refresh interval of a 255 Hz target has passed as well)
+    let last = term.flushes.lock().unwrap().last().cloned();
+    let shown = last.as_ref().map(|f| f.1.clone()).unwrap_or_default();
+    ensure!(pb.position() == n, "harness", "position {}", pb.position());
+    let want = format!("P{n} ");
+    ensure!(
+        shown.starts_with(&want),
+        "stale_position_contended",
+        "{n} position update(s) (kind {}) arrived while another thread was painting (flush takes {:?}); both threads are done, the last frame shows {shown:?} but the position is {n}",
+        c.via % 3,
+        term.slow
+    );
+    let mut v = Verdict::default();
+    v.nontrivial = true;
+    v.label("position_update_meets_busy_bar");
+    Ok(v)
+}
+
 pub fn property() -> Property {
     let w = default_workers();
     Property {
@@ -344,7 +546,7 @@ pub fn property() -> Property {
                 signature: no_signature,
                 essential: &["skipped_draw", "burst_exhausted", "gap_at_interval_multiple", "refill_after_long_gap", "multi_progress_target"],
                 workers: w,
-                decode: None,
+                decode: Some(decode_rate),
             }),
             Box::new(Gen::<PosCase> {
                 name: "position_bucket",
@@ -359,6 +561,28 @@ pub fn property() -> Property {
                 signature: no_signature,
                 essential: &["update_throttled", "burst_exhausted", "reset_interleaved"],
                 workers: w,
+                decode: None,
+            }),
+            Box::new(Gen::<TickerCase> {
+                name: "ticker_requests",
+                rule: "real clock: a steady ticker (1-4 ms) on a 20-200 Hz target (stand-alone or MultiProgress) runs 120 ms, is held up by suspend() for 200-700 ms and runs 150 ms more; the real flush instants must satisfy the window bound 20 + R*T + 1 (slack 12 for scheduling delays)",
+                strategy: |_| (20u8..=200, 0u8..4, any::<u16>(), any::<bool>()).prop_map(|(rate, tick_ms, stall_ms, in_multi)| TickerCase { rate, tick_ms, stall_ms, in_multi }).boxed(),
+                cases: |t| t.pick(2, 60),
+                run: run_ticker,
+                signature: no_signature,
+                essential: &["ticker_held_up_then_released"],
+                workers: 6,
+                decode: None,
+            }),
+            Box::new(Gen::<BusyCase> {
+                name: "busy_bar",
+                rule: "real threads: while one thread repaints through a terminal whose flush takes 5-24 ms, another issues 1-5 inc/set_position/inc+dec calls; after both are done the last painted frame must show the final position",
+                strategy: |_| (any::<u8>(), any::<u8>(), any::<u8>(), 0u8..3).prop_map(|(incs, flush_ms, gap_ms, via)| BusyCase { incs, flush_ms, gap_ms, via }).boxed(),
+                cases: |t| t.pick(4, 200),
+                run: run_busy,
+                signature: no_signature,
+                essential: &["position_update_meets_busy_bar"],
+                workers: 8,
                 decode: None,
             }),
         ],
